@@ -104,6 +104,32 @@ theorem requeuer_no_topic (w : Bool) (tg : TopicGen) (dest : POut) (m : Msg) (h 
   · subst h; simp [requeuer]
   · subst h; cases w <;> simp [requeuer]
 
+/-- **the topic function is applied to the message as consumed**: whatever `GeneratePublishTopic` computes from the
+    message it is shown (in particular from its retries header), the message is published to the topic computed
+    from the consumed message – counter not yet raised – while the published message carries the raised counter. -/
+theorem requeuer_topic_from_consumed (pol : TopicPolicy) (dest : POut) (m : Msg) (t : Str) (ht : pol m = .ok t) :
+    ∃ m', (requeuerP false pol dest m).pubs = [(t, m')] ∧
+      List.lookup retriesKey m'.md = some (itoa (nextCounter m)) ∧ m'.uuid = m.uuid ∧ m'.payload = m.payload := by
+  obtain ⟨m', h1, _, h3, h4, h5, _⟩ := requeuer_relays t dest m
+  exact ⟨m', by simp [requeuerP, ht, h1], h5, h3, h4⟩
+
+/-- a retry budget of `k`: a message that arrives with counter `< k` goes to the work topic (its published counter
+    may then equal `k`), one that arrives with counter `≥ k` goes to the dead-letter topic -/
+theorem budget_applies_to_consumed (k : Int) (work dead : Str) (dest : POut) (m : Msg) :
+    (priorCounter m < k → ∃ m', (requeuerP false (budgetPolicy k work dead) dest m).pubs = [(work, m')]) ∧
+    (k ≤ priorCounter m → ∃ m', (requeuerP false (budgetPolicy k work dead) dest m).pubs = [(dead, m')]) := by
+  constructor
+  · intro h
+    have hp : budgetPolicy k work dead m = .ok work := by
+      have : ¬ k ≤ priorCounter m := by omega
+      simp [budgetPolicy, this]
+    obtain ⟨m', h1, _⟩ := requeuer_topic_from_consumed _ dest m work hp
+    exact ⟨m', h1⟩
+  · intro h
+    have hp : budgetPolicy k work dead m = .ok dead := by simp [budgetPolicy, h]
+    obtain ⟨m', h1, _⟩ := requeuer_topic_from_consumed _ dest m dead hp
+    exact ⟨m', h1⟩
+
 /-! ### Forwarder -/
 
 theorem valid_iff (p : Parsed) (e : Envelope) : p.valid = some e ↔ (p = .env e ∧ e.dest ≠ []) := by
@@ -324,6 +350,10 @@ example : (requeuer false (.ok (ascii "retry")) (.fail []) m1).settle = .nack :=
 example : priorCounter ⟨[], [], [(retriesKey, ascii " 5")]⟩ = 0 ∧ priorCounter ⟨[], [], [(retriesKey, ascii "x")]⟩ = 0 ∧
     priorCounter ⟨[], [], [(retriesKey, ascii "9223372036854775808")]⟩ = 0 ∧ priorCounter ⟨[], [], []⟩ = 0 := by decide
 example : priorCounter (requeueN (ascii "t") 3 ⟨[], [], []⟩) = 3 := by decide
+example : (requeuerP false (budgetPolicy 3 (ascii "work") (ascii "dead")) .ok ⟨[], [], [(retriesKey, ascii "2")]⟩).pubs =
+    [(ascii "work", ⟨[], [], [(retriesKey, ascii "3")]⟩)] := by decide
+example : (requeuerP false (metaPolicy retriesKey) .ok ⟨[], [], [(retriesKey, ascii "7")]⟩).pubs =
+    [(ascii "7", ⟨[], [], [(retriesKey, ascii "8")]⟩)] := by decide
 example : (Parsed.env e1).valid = some e1 := by decide
 example : (forwarder false (.env e1) .ok).pubs = [(ascii "orders", [⟨ascii "u1", ascii "data", [(ascii "k", ascii "v")]⟩])] := by decide
 example : (Parsed.env { e1 with dest := [] }).valid = none ∧ Parsed.bad.valid = none := by decide
